@@ -34,5 +34,7 @@ def check(ctx, rep):
     _exc3.exc_3(ctx, rep)       # the codec probes of the string checks cannot raise out of the listing
     from ..rules import normr as _n13
     _n13.norm_13(ctx, rep)      # a prefix is split with a start position computed from its own leaf
+    from ..rules import dar as _idx1
+    _idx1.idx_1(ctx, rep, ['parso/python/errors.py', 'parso/normalizer.py'])     # no constant index into a freshly filtered list
     rep.note('Not decided: absence of every implicit exception (None dereferences that depend on tree invariants), '
              'position ranges. Dependency: RX-1 (C09) - two rules call _split_prefix.')
